@@ -9,7 +9,7 @@ Core Lean only.
 import NriModel.Lemmas.ResultView
 
 namespace Nri.Result
-open Nri.Api Nri.Ledger
+open Nri.NApi Nri.Ledger
 
 /-! ### the reply lists after one adjustment -/
 
@@ -167,7 +167,7 @@ theorem device_mem_adjustSets (a : Adjustment) (d : Str) (h : Item.device d ∈ 
 end Nri.Result
 
 namespace Nri.Result
-open Nri.Api Nri.Ledger
+open Nri.NApi Nri.Ledger
 
 /-- (E) a removal marker for an owned item really clears its owner -/
 theorem clears_effective (st : State) (a : Adjustment) (rh : ReplyHolds st) (it : Item) (w : Plugin)
@@ -358,7 +358,7 @@ theorem replyHolds_apply (st st' p r) (rh : ReplyHolds st) (h : apply Quirks.fix
 end Nri.Result
 
 namespace Nri.Result
-open Nri.Api Nri.Ledger
+open Nri.NApi Nri.Ledger
 
 /-- the model's ledger is covered by an abstract owned-set -/
 def AbsRel (st : State) (owned : List (Cid × Item)) : Prop :=
@@ -590,7 +590,7 @@ theorem apply_abs (st : State) (p : Plugin) (r : Response) (owned owned' : List 
 end Nri.Result
 
 namespace Nri.Result
-open Nri.Api Nri.Ledger
+open Nri.NApi Nri.Ledger
 
 /-- chains in which every plugin answers -/
 def answeredAll (rs : List (Plugin × Response)) : List (Plugin × Option Response) :=
